@@ -207,6 +207,26 @@ pub fn graphics_props(k: u32) -> (String, ir::GraphicsPipelineState) {
     if k == 0 {
         return (String::new(), want);
     }
+    // 9001..9004: exactly one property, one of each group a compute pipeline refuses
+    match k {
+        9001 => {
+            want.render_target_formats = vec![None, None, Some("R32_UINT".to_string())];
+            return ("    RenderTargetFormat2 = \"R32_UINT\";\n".to_string(), want);
+        }
+        9002 => {
+            want.depth_target_format = Some("D32_FLOAT".to_string());
+            return ("    DepthTargetFormat = \"D32_FLOAT\";\n".to_string(), want);
+        }
+        9003 => {
+            want.cull_mode = ir::CullMode::Front;
+            return ("    CullMode = \"Front\";\n".to_string(), want);
+        }
+        9004 => {
+            want.winding_order = ir::WindingOrder::Clockwise;
+            return ("    WindingOrder = \"Clockwise\";\n".to_string(), want);
+        }
+        _ => {}
+    }
     let mut rng = Rng::new(0xC05_6500 + k as u64);
     let mut props: Vec<String> = Vec::new();
     const FORMATS: &[&str] = &["R8G8B8A8_UNORM", "R16G16B16A16_FLOAT", "R32_UINT", "B8G8R8A8_SRGB"];
